@@ -10,6 +10,7 @@ package main
 
 import (
 	"bytes"
+	"context"
 	"encoding/hex"
 	"encoding/json"
 	"errors"
@@ -26,9 +27,11 @@ import (
 
 	"github.com/refraction-networking/conjure/internal/conjurepath"
 	"github.com/refraction-networking/conjure/pkg/core"
+	"github.com/refraction-networking/conjure/pkg/core/interfaces"
 	cj "github.com/refraction-networking/conjure/pkg/station/lib"
 	"github.com/refraction-networking/conjure/pkg/station/log"
 	"github.com/refraction-networking/conjure/pkg/transports"
+	cdtls "github.com/refraction-networking/conjure/pkg/transports/connecting/dtls"
 	pb "github.com/refraction-networking/conjure/proto"
 	"google.golang.org/protobuf/proto"
 	"google.golang.org/protobuf/types/known/anypb"
@@ -176,12 +179,21 @@ type c17Geo struct {
 	mu    sync.Mutex
 	ccErr map[string]*c17Err // keyed by ip.String()
 	asErr map[string]*c17Err
+	after map[string]int // lookups for this address that still succeed before the scripted error applies
+}
+
+func (g *c17Geo) due(ip net.IP) bool {
+	if n := g.after[ip.String()]; n > 0 {
+		g.after[ip.String()] = n - 1
+		return false
+	}
+	return true
 }
 
 func (g *c17Geo) CC(ip net.IP) (string, error) {
 	g.mu.Lock()
 	defer g.mu.Unlock()
-	if e, ok := g.ccErr[ip.String()]; ok {
+	if e, ok := g.ccErr[ip.String()]; ok && g.due(ip) {
 		return "", c17Build(e, "lookup", c17Addr{ip.String()})
 	}
 	return "US", nil
@@ -189,7 +201,7 @@ func (g *c17Geo) CC(ip net.IP) (string, error) {
 func (g *c17Geo) ASN(ip net.IP) (uint, error) {
 	g.mu.Lock()
 	defer g.mu.Unlock()
-	if e, ok := g.asErr[ip.String()]; ok {
+	if e, ok := g.asErr[ip.String()]; ok && g.due(ip) {
 		return 0, c17Build(e, "lookup", c17Addr{ip.String()})
 	}
 	return 64500, nil
@@ -237,6 +249,41 @@ func (t *c17T) WrapConnection(data *bytes.Buffer, c net.Conn, phantom net.IP, rm
 	return p.reg, c, nil
 }
 
+// scripted connecting transport (the station dials the client): registered under its own type
+type c17CPlan struct {
+	conn net.Conn
+	err  *c17Err
+	done chan struct{}
+}
+type c17CT struct {
+	c17T
+	mu    sync.Mutex
+	plans map[string]*c17CPlan // keyed by the registration address
+}
+
+func (*c17CT) Name() string      { return "VerifConnecting" }
+func (*c17CT) LogPrefix() string { return "VERIFC" }
+func (*c17CT) GetProto() pb.IPProto { return pb.IPProto_Udp }
+func (t *c17CT) Connect(ctx context.Context, reg transports.Registration) (net.Conn, error) {
+	t.mu.Lock()
+	p := t.plans[reg.GetRegistrationAddress()]
+	t.mu.Unlock()
+	if p == nil {
+		return nil, errors.New("verif: no plan")
+	}
+	defer close(p.done)
+	if p.err != nil {
+		return nil, c17Build(p.err, "dial", &net.UDPAddr{IP: net.ParseIP(reg.GetRegistrationAddress()), Port: 4444})
+	}
+	return p.conn, nil
+}
+
+type c17DNAT struct{}
+
+func (c17DNAT) AddEntry(clientAddr *net.IP, clientPort uint16, phantomIP *net.IP, phantomPort uint16) error {
+	return nil
+}
+
 // ---------------------------------------------------------------- cases
 
 type c17Case struct {
@@ -252,6 +299,8 @@ type c17Case struct {
 	Dial     string              `json:"dial"` // ok | fail
 	ProxyHdr bool                `json:"proxy_hdr"`
 	LogIP    bool                `json:"log_ip"`
+	CtMode   string              `json:"ct_mode"`   // ct scenario: relay | fail | geo
+	GeoAfter int                 `json:"geo_after"` // GeoIP lookups that succeed before the scripted error
 	Level    string              `json:"level"`
 	Hold     bool                `json:"hold"`
 }
@@ -299,6 +348,8 @@ func c17Forms(ip net.IP) []string {
 }
 
 type c17Env struct {
+	ct     *c17CT
+	dtlsOK bool
 	rm    *cj.RegistrationManager
 	cm    *connManager
 	geo   *c17Geo
@@ -312,7 +363,8 @@ type c17Env struct {
 
 func c17Setup() (*c17Env, error) {
 	os.Setenv("PHANTOM_SUBNET_LOCATION", conjurepath.Root+"/pkg/station/lib/test/phantom_subnets.toml")
-	e := &c17Env{geo: &c17Geo{ccErr: map[string]*c17Err{}, asErr: map[string]*c17Err{}}, tr: &c17T{plans: map[net.Conn]*c17Plan{}}}
+	e := &c17Env{geo: &c17Geo{ccErr: map[string]*c17Err{}, asErr: map[string]*c17Err{}, after: map[string]int{}}, tr: &c17T{plans: map[net.Conn]*c17Plan{}},
+		ct: &c17CT{plans: map[string]*c17CPlan{}}}
 	e.rm = cj.NewRegistrationManager(&cj.RegConfig{EnableIPv4: true, EnableIPv6: true})
 	if e.rm == nil {
 		return nil, errors.New("NewRegistrationManager returned nil")
@@ -321,6 +373,16 @@ func c17Setup() (*c17Env, error) {
 	e.rm.VerifC17NoDetector()
 	if err := e.rm.AddTransport(pb.TransportType_Min, e.tr); err != nil {
 		return nil, err
+	}
+	if err := e.rm.AddTransport(pb.TransportType_Webrtc, e.ct); err != nil {
+		return nil, err
+	}
+	// the real DTLS connecting transport with a stand-in for the tun-device DNAT
+	nop := func(*net.IP) {}
+	if dt, err := cdtls.NewTransport(nop, nop, nop, nop, func() (interfaces.DNAT, error) { return c17DNAT{}, nil }); err == nil {
+		if e.rm.AddTransport(pb.TransportType_DTLS, dt) == nil {
+			e.dtlsOK = true
+		}
 	}
 	e.cm = newConnManager(nil)
 	reg, err := c17NewReg(e.rm, net.IPv4(198, 51, 100, 1), "127.0.0.1:9", bytes.Repeat([]byte{7}, 32))
@@ -380,6 +442,35 @@ func c17RegMsg(client net.IP, covert string, secret []byte) ([]byte, error) {
 	return proto.Marshal(w)
 }
 
+// c17ConnectingMsg: a registration for a connecting transport (the station dials the client)
+func c17ConnectingMsg(client net.IP, port int, covert string, secret []byte, tt pb.TransportType) ([]byte, error) {
+	w := c17Wrapper(client, covert, secret)
+	yes := true
+	no := false
+	w.RegistrationPayload.Transport = &tt
+	w.RegistrationPayload.Flags = &pb.RegistrationFlags{Prescanned: &yes}
+	v := uint32(5)
+	w.RegistrationPayload.ClientLibVersion = &v
+	if client.To4() == nil {
+		w.RegistrationPayload.V4Support = &no
+		w.RegistrationPayload.V6Support = &yes
+	}
+	if tt == pb.TransportType_DTLS {
+		p := uint32(port)
+		a := &pb.Addr{IP: client.To16(), Port: &p}
+		if v4 := client.To4(); v4 != nil {
+			a.IP = v4
+		}
+		params := &pb.DTLSTransportParams{SrcAddr4: a, SrcAddr6: a}
+		any, err := anypb.New(params)
+		if err != nil {
+			return nil, err
+		}
+		w.RegistrationPayload.TransportParams = any
+	}
+	return proto.Marshal(w)
+}
+
 func (e *c17Env) captured() string {
 	time.Sleep(3 * time.Millisecond)
 	st, err := e.f.Stat()
@@ -412,6 +503,11 @@ func (e *c17Env) runCase(c c17Case) (res c17Res) {
 		conn.reads = append(conn.reads, d)
 	}
 	logClientIP = c.LogIP
+	if c.LogIP {
+		os.Setenv("LOG_CLIENT_IP", "true")
+	} else {
+		os.Unsetenv("LOG_CLIENT_IP")
+	}
 	if c.Level != "" {
 		l, _ := log.ParseLevel(c.Level)
 		log.SetLevel(l)
@@ -427,6 +523,9 @@ func (e *c17Env) runCase(c c17Case) (res c17Res) {
 	}
 	if x, ok := c.Geo["asn"]; ok {
 		e.geo.asErr[ip.String()] = x
+	}
+	if c.GeoAfter > 0 {
+		e.geo.after[ip.String()] = c.GeoAfter
 	}
 	e.geo.mu.Unlock()
 	done := make(chan struct{})
@@ -445,6 +544,46 @@ func (e *c17Env) runCase(c c17Case) (res c17Res) {
 				return
 			}
 			e.rm.VerifC17IngestMsg(msg)
+		case "ct", "dtls_real":
+			secret := append(bytes.Repeat([]byte{11}, 28), byte(c.Port>>8), byte(c.Port), 3, 4)
+			tt := pb.TransportType_Webrtc
+			if c.Scenario == "dtls_real" {
+				if !e.dtlsOK {
+					res.Panic = "dtls transport unavailable"
+					return
+				}
+				tt = pb.TransportType_DTLS
+			}
+			msg, err := c17ConnectingMsg(ip, c.Port, e.ln.Addr().String(), secret, tt)
+			if err != nil {
+				res.Panic = "marshal: " + err.Error()
+				return
+			}
+			conn.remote = &net.UDPAddr{IP: ip, Port: c.Port}
+			plan := &c17CPlan{conn: conn, done: make(chan struct{})}
+			if c.CtMode == "fail" {
+				plan.err = c.WrapErr
+			}
+			e.ct.mu.Lock()
+			e.ct.plans[ip.String()] = plan
+			e.ct.mu.Unlock()
+			e.rm.VerifC17IngestMsg(msg)
+			if c.Scenario == "dtls_real" {
+				time.Sleep(6 * time.Second) // Connect gives up after its 5 s context
+				return
+			}
+			// the connecting goroutine is detached: wait for Connect and, when relaying, for the relay to end
+			select {
+			case <-plan.done:
+			case <-time.After(2 * time.Second):
+			}
+			if c.CtMode == "relay" {
+				select {
+				case <-conn.closedCh:
+				case <-time.After(5 * time.Second):
+				}
+			}
+			time.Sleep(20 * time.Millisecond)
 		case "noreg":
 			e.cm.handleNewTCPConn(e.rm, conn, e.regNo)
 		default:
@@ -472,7 +611,7 @@ func (e *c17Env) runCase(c c17Case) (res c17Res) {
 	case <-time.After(20 * time.Second):
 		res.Timeout = true
 	}
-	if c.Scenario != "wraperr" {
+	if c.Scenario != "wraperr" && c.Scenario != "dtls_real" {
 		res.Out = e.captured()
 	}
 	for _, f := range res.Forms {
@@ -512,7 +651,7 @@ func TestVerifC17(t *testing.T) {
 	// in the background, started first (their logger takes the level that is set at that moment)
 	var bg sync.WaitGroup
 	for i, c := range cases {
-		if c.Scenario != "wraperr" {
+		if c.Scenario != "wraperr" && c.Scenario != "dtls_real" {
 			continue
 		}
 		bg.Add(1)
@@ -525,7 +664,7 @@ func TestVerifC17(t *testing.T) {
 		time.Sleep(30 * time.Millisecond)
 	}
 	for i, c := range cases {
-		if c.Scenario == "wraperr" {
+		if c.Scenario == "wraperr" || c.Scenario == "dtls_real" {
 			continue
 		}
 		res[i] = env.runCase(c)
